@@ -371,6 +371,14 @@ func (c *simCluster) onHook(point string, args ...interface{}) {
 		c.undialed[k] = append(c.undialed[k], rpc)
 		c.mu.Unlock()
 		c.rpcs = append(c.rpcs, rpc)
+		// the instant the leader designates its successor (C16): what it knows about the target right now
+		tn, member := r.configs.Latest.Nodes[rpc.to]
+		act := map[string]interface{}{"kind": "xferTarget", "n": r.nid, "target": rpc.to, "voter": member && tn.Voter, "last": r.lastLogIndex, "match": uint64(0)}
+		if repl := r.ldr.repls[rpc.to]; repl != nil {
+			act["match"] = repl.status.matchIndex
+		}
+		c.acts = append(c.acts, act)
+		c.rpcs = append(c.rpcs, rpc)
 	}
 	if point == "snapG.ask" || point == "snapG.store" {
 		if id, ok := c.hookNode(args...); ok {
